@@ -39,7 +39,7 @@ var (
 )
 
 const (
-	src = "eth-cp"
+	src = "Eth-CP" // (mixed case on purpose: names are case-sensitive and part of the slot derivation)
 	dst = "teleport_9000-10"
 )
 
